@@ -71,6 +71,8 @@ func crashKind(kind string) (int, uint64, uint64) {
 		return 3, 3, 7
 	case "refresh":
 		return 5, 5, 5
+	case "growthAfterRefusal": // the serving process has refused an update for this log before the one under test
+		return 3, 3, 7
 	}
 	return 3, 3, 7
 }
@@ -96,6 +98,12 @@ func scenarioCrashChild(t *traceWriter, rng *rand.Rand) {
 		fmt.Println("SETUP-DONE")
 	case "run":
 		w := c.witness(*flagDB)
+		if baseKind == "growthAfterRefusal" {
+			// refused after the stored checkpoint was consulted (stale old size, then a root mismatch); what a refusal
+			// leaves behind in the connection must not change what the next accepted update commits
+			_, _ = w.Update(bgctx, id, 1, signNote(cpText(c.origin, 6, c.tr.root(6)), c.key.signer), c.tr.consistency(1, 6))
+			_, _ = w.Update(bgctx, id, 3, signNote(cpText(c.origin, 3, c.tr.root(4)), c.key.signer), [][]byte{})
+		}
 		drvCtl.take()
 		drvCtl.mu.Lock()
 		drvCtl.count = 0
@@ -168,7 +176,7 @@ func scenarioCrash(t *traceWriter, rng *rand.Rand) {
 	scratch := scratchDir()
 	defer os.RemoveAll(scratch)
 	n := 0
-	for _, kind := range []string{"firstUse", "growth", "refresh"} {
+	for _, kind := range []string{"firstUse", "growth", "refresh", "growthAfterRefusal"} {
 		// dry run: how many driver events does this update have
 		db := filepath.Join(scratch, fmt.Sprintf("dry-%s.db", kind))
 		runChild(db, "setup", kind, 0)
